@@ -35,7 +35,7 @@ class MetaType(type):
     def __call__(cls, *args, **kwargs) -> Self:  # type: ignore
         """Adds support for ``TypeClass(bytes | file-like object)`` parsing syntax."""
         # TODO: add support for Type(cs) API to create new bounded type classes, similar to the old API?
-        if len(args) == 1 and not isinstance(args[0], cls):
+        if len(args) == 1 and not kwargs and not isinstance(args[0], cls):
             stream = args[0]
 
             if _is_readable_type(stream):
